@@ -8,7 +8,7 @@
      other threads do meanwhile ([cs_measure], [holder_step],
      [other_step_keeps_cs], [mu_released_within_bound]);
    - at the blocking Lock / RLock step, key k ITSELF being held incompatibly
-     ([blocked_only_by_mu_or_own_key]).
+     ([blocked_only_by_mu_or_own_key_machine]).
    Holding or waiting for another key appears in neither condition. *)
 From Typ Require Import SyncMap.Model SyncMap.Inv SyncMap.KeyedMutex SyncMap.InsertOnly.
 
@@ -306,7 +306,9 @@ Qed.
    thread, which by part 1 is enabled and releases it within the bound), or it stands at the blocking
    Lock / RLock step of a call on key k while k ITSELF is held incompatibly. Holding or waiting for any
    other key appears nowhere. *)
-Theorem blocked_only_by_mu_or_own_key progs sched t f i :
+(* about the queue-less mutex machine; the property theorem with the "contended" alternative is in
+   SyncMap/Uncontended.v *)
+Theorem blocked_only_by_mu_or_own_key_machine progs sched t f i :
   io_progs progs -> fresh_values progs -> disc_from (init_config 1 progs) sched ->
   let c := run_schedule (init_config 1 progs) sched in
   c_insts c = [i] -> top_frame c t = Some f -> (forall ch, step c t ch = None) ->
@@ -332,7 +334,7 @@ Proof.
       destruct (decide (Exists (fun h : hold => h.1.2 = key_of (f_call f)) (holders c))) as [E|E].
       * right. left. split; [auto|]. apply Exists_exists in E as ([[t2 k2] b2] & Hin & Hk). cbn in Hk. subst k2.
         exists t2, b2. apply elem_of_list_In, Hin.
-      * exfalso. destruct (lock_succeeds_when_key_free progs sched t 0%Z f Hp Hfr Hd Tt (or_introl Hpc)) as (c' & Hs & _).
+      * exfalso. destruct (lock_succeeds_when_key_free_machine progs sched t 0%Z f Hp Hfr Hd Tt (or_introl Hpc)) as (c' & Hs & _).
         -- intros t2 b Hin. apply E, Exists_exists. exists (t2, key_of (f_call f), b). split; [apply elem_of_list_In, Hin|reflexivity].
         -- fold c in Hs. rewrite (Hblk 0%Z) in Hs. discriminate.
     + (* KM_TryLock *) exfalso. pose proof (try_never_blocks (c_um c) f ltac:(rewrite Hpc; reflexivity)) as Hne.
@@ -343,7 +345,7 @@ Proof.
       destruct (decide (Exists (fun h : hold => h.1.2 = key_of (f_call f)) (holders c))) as [E|E].
       * right. left. split; [auto|]. apply Exists_exists in E as ([[t2 k2] b2] & Hin & Hk). cbn in Hk. subst k2.
         exists t2, b2. apply elem_of_list_In, Hin.
-      * exfalso. destruct (lock_succeeds_when_key_free progs sched t 0%Z f Hp Hfr Hd Tt (or_intror Hpc)) as (c' & Hs & _).
+      * exfalso. destruct (lock_succeeds_when_key_free_machine progs sched t 0%Z f Hp Hfr Hd Tt (or_intror Hpc)) as (c' & Hs & _).
         -- intros t2 b Hin. apply E, Exists_exists. exists (t2, key_of (f_call f), b). split; [apply elem_of_list_In, Hin|reflexivity].
         -- fold c in Hs. rewrite (Hblk 0%Z) in Hs. discriminate.
     + (* KRW_TryLock *) exfalso. pose proof (try_never_blocks (c_um c) f ltac:(rewrite Hpc; reflexivity)) as Hne.
@@ -354,7 +356,7 @@ Proof.
       destruct (decide (Exists (fun h : hold => h.1.2 = key_of (f_call f) /\ h.2 = true) (holders c))) as [E|E].
       * right. right. split; [reflexivity|]. apply Exists_exists in E as ([[t2 k2] b2] & Hin & Hk & Hb). cbn in Hk, Hb. subst k2 b2.
         exists t2. apply elem_of_list_In, Hin.
-      * exfalso. destruct (rlock_succeeds_when_key_not_write_held progs sched t 0%Z f Hp Hfr Hd Tt Hpc) as (c' & Hs & _).
+      * exfalso. destruct (rlock_succeeds_when_key_not_write_held_machine progs sched t 0%Z f Hp Hfr Hd Tt Hpc) as (c' & Hs & _).
         -- intros t2 Hin. apply E, Exists_exists. exists (t2, key_of (f_call f), true). split; [apply elem_of_list_In, Hin|auto].
         -- fold c in Hs. rewrite (Hblk 0%Z) in Hs. discriminate.
     + (* KRW_TryRLock *) exfalso. pose proof (try_never_blocks (c_um c) f ltac:(rewrite Hpc; reflexivity)) as Hne.
